@@ -25,7 +25,7 @@ func c17Clients(nSeeds int) []gridClient {
 	return out
 }
 
-var cookieMenu = [][]byte{nil, {0x42}, rep(0xC1, 32), rep(0xC2, 255), rep(0xC3, 1024)}
+var cookieMenu = [][]byte{nil, {0x42}, rep(0xC1, 32), rep(0xC2, 255), rep(0xC3, 1024), rep(0xC4, 4000), rep(0xC5, 16000)}
 
 func c17Scenario(clients []gridClient) *explore.Scenario {
 	return &explore.Scenario{
@@ -310,7 +310,7 @@ func c17Scenarios(thorough bool) []*explore.Scenario {
 func init() {
 	register(&Prop{ID: "C17", Level: "exploration", Variant: "A", Scenarios: c17Scenarios,
 		Run: func(c *explore.Check, thorough bool) {
-			c.Rule = "every TLS 1.3 client without PSK (all IDs, 2 (64) seeds per randomized kind, custom specs) x every classical group it lists without a share (forced through the verif group hook) x cookie {none, 1, 32, 255, 1024 bytes} (added to the HRR before it enters the server transcript) x HRR kind {valid, group not listed, group already shared, neither group nor cookie, second HRR} x environment {plain, hello built twice before Handshake, *Config shared with a connection of another parrot family that builds its hello while this one awaits the server}: valid => CH2 equals CH1 extension by extension except key_share (exactly one fresh share of the requested group), the echoed cookie and padding, and the handshake completes with echo; invalid => client error and no further ClientHello. distinct = (client, kind, group, cookie)"
+			c.Rule = "every TLS 1.3 client without PSK (all IDs, 2 (64) seeds per randomized kind, custom specs) x every classical group it lists without a share (forced through the verif group hook) x cookie {none, 1, 32, 255, 1024, 4000, 16000 bytes} (added to the HRR before it enters the server transcript) x HRR kind {valid, group not listed, group already shared, neither group nor cookie, second HRR} x environment {plain, hello built twice before Handshake, *Config shared with a connection of another parrot family that builds its hello while this one awaits the server}: valid => CH2 equals CH1 extension by extension except key_share (exactly one fresh share of the requested group), the echoed cookie and padding, and the handshake completes with echo; invalid => client error and no further ClientHello. distinct = (client, kind, group, cookie)"
 			c.Assumptions = []string{"the utls server with verif hooks H1/H2 is the HelloRetryRequest source; its transcript sees the modified HRR", "the cookie insertion index is drawn from a fresh PRNG and is observed, not enumerated", "the server tolerates the echoed cookie through the verif hook AcceptCookie13 (crypto/tls servers never issue cookies and would reject one)"}
 			runAll(c, c17Scenarios(thorough), 0)
 			c.Gate(c.Total.Counters["valid_hrr_cases"] > 200, "non-vacuity: %d valid HRR cases", c.Total.Counters["valid_hrr_cases"])
